@@ -3,14 +3,17 @@ package props
 import (
 	"bytes"
 	"flag"
+	"io"
 	"math"
 	"strconv"
 	"testing"
 
 	"github.com/Tnze/go-mc/chat"
 	"github.com/Tnze/go-mc/nbt"
+	pk "github.com/Tnze/go-mc/net/packet"
 	"pgregory.net/rapid"
 
+	"verif/harness/iox"
 	"verif/harness/pbt"
 )
 
@@ -76,4 +79,36 @@ func noiseChat() {
 		_, _ = bad.MarshalJSON()
 		_ = back.UnmarshalJSON([]byte(`{"text":"x","extra":[{"text":1`))
 	})
+}
+
+// noisePacket: unrelated packet traffic that ENDS BADLY - frames packed into writers that fail after a few bytes or
+// report short writes, frames cut off while unpacking, a Marshal whose second field refuses to encode (Marshal panics,
+// as documented for Builder.WriteField; the caller recovers). Whatever the package pools or caches between calls must
+// not carry any of it into the operation under test.
+type noiseFieldAdapter struct{}
+
+func (noiseFieldAdapter) WriteTo(w io.Writer) (int64, error) {
+	n, _ := w.Write([]byte("STALE-FIELD"))
+	return int64(n), iox.ErrInjected
+}
+
+var noiseStalePayload = bytes.Repeat([]byte("STALE"), 60)
+
+func noisePacket() {
+	_, _ = pbt.Try(func() {
+		stale := pk.Packet{ID: 0x7e, Data: noiseStalePayload}
+		for _, thr := range []int{-1, 64} {
+			for _, k := range []int{0, 3, 100} {
+				_ = stale.Pack(iox.NewSink(k), thr)
+				_ = stale.Pack(&iox.HealingSink{FailAt: k, Short: true}, thr)
+			}
+			var buf bytes.Buffer
+			_ = stale.Pack(&buf, thr)
+			for _, cut := range []int{1, 2, 5, buf.Len() - 1} {
+				var q pk.Packet
+				_ = q.UnPack(bytes.NewReader(buf.Bytes()[:cut]), thr)
+			}
+		}
+	})
+	_, _ = pbt.Try(func() { _ = pk.Marshal(0x7e, pk.String("STALE-STALE-STALE"), pk.VarInt(300), noiseFieldAdapter{}) })
 }
